@@ -27,7 +27,7 @@ def jobs_for(prop):
     jobs = []
     for mode in modes:
         for change in ("register", "unregister"):
-            for via in (("recurse", "name") if mode == "plain" else ("recurse",)):
+            for via in (("recurse", "name", "next") if mode == "plain" else ("recurse", "next")):
                 for warm in (False, True):
                     jobs.append({"id": f"{prop}-inflight-{mode}-{change}-{via}-{'warm' if warm else 'cold'}", "prop": prop,
                                  "mode": mode, "change": change, "via": via, "warm": warm})
